@@ -90,6 +90,13 @@ theorem Sim.evaluated {a b : Arg} (h : Sim L T a b) : Sim L T a.evaluated b.eval
 
 theorem Sim.noValue_refl : Sim L T .noValue .noValue := .plain (Core.refl _) rfl rfl
 
+theorem sim_refl : ∀ (a : Arg), Sim L T a a
+  | .noValue => .plain (Core.refl _) rfl rfl
+  | .const .. => .plain (Core.refl _) rfl rfl
+  | .expr .. => .plain (Core.refl _) rfl rfl
+  | .value _ => .plain (Core.refl _) rfl rfl
+  | .mapRule _ d _ _ => .rule (Core.refl _) rfl (sim_refl d)
+
 /-- keyword arguments: the same names in the same order, similar values -/
 def KwRel (L : Lattice) (T : PTy → Prop) (kw kw' : KwArgs) : Prop :=
   Forall₂ (fun x y => x.1 = y.1 ∧ Sim L T x.2 y.2) kw kw'
@@ -237,5 +244,509 @@ theorem translateArgs_congr (nk : Bool) {as bs : List Arg} {kw kw' : KwArgs}
         rcases mergeKw_congr hk hkk with ⟨e, h3, h4⟩ | ⟨m, m', h3, h4, hm⟩
         · left; simp only [h3, h4]; exact ⟨e, rfl, rfl⟩
         · right; simp only [h3, h4]; exact ⟨p, m, p', m', rfl, rfl, hp, hm⟩
+
+/-! ## `map_args` -/
+
+theorem given_congr : ∀ {as bs : List Arg}, ArgsRel L T as bs → ∀ i, given as i = given bs i
+  | _, _, .nil, i => by simp [given]
+  | _, _, .cons hab hr, 0 => by simp [given, hab.core.noValue]
+  | _, _, .cons _ hr, i + 1 => by
+      have := given_congr hr i
+      simpa [given] using this
+
+/-- the states of the `map_args` loop on the two calls: same slots, same keyword table, similar leftovers -/
+structure StRel (L : Lattice) (T : PTy → Prop) (st st' : MapSt) : Prop where
+  pos : st.pos = st'.pos
+  kwd : st.kwd = st'.kwd
+  rest : KwRel L T st.rest st'.rest
+
+/-- both fail, or both succeed with related results -/
+def ORel {α β : Type} (R : α → β → Prop) : Option α → Option β → Prop
+  | none, none => True
+  | some a, some b => R a b
+  | _, _ => False
+
+theorem mapStep_congr {ps : List Param} {as bs : List Arg} {st st' : MapSt} (p : Param)
+    (ha : ArgsRel L T as bs) (hs : StRel L T st st') :
+    ORel (StRel L T) (mapStep ps as st p) (mapStep ps bs st' p) := by
+  have hg := given_congr ha
+  have hh := hs.rest.ahas
+  have hl : as.length = bs.length := ha.length_eq
+  obtain ⟨hpos, hkwd, hrest⟩ := hs
+  unfold mapStep
+  simp only [← hg, ← hh, ← hl, ← hpos, ← hkwd]
+  cases p.position with
+  | some q =>
+      simp only
+      repeat' split
+      all_goals first
+        | exact ⟨hpos, hkwd, hrest⟩
+        | exact trivial
+        | exact ⟨rfl, rfl, hrest⟩
+        | exact ⟨rfl, rfl, hrest.adel _⟩
+  | none =>
+      simp only
+      repeat' split
+      all_goals first
+        | exact ⟨hpos, hkwd, hrest⟩
+        | exact trivial
+        | exact ⟨rfl, rfl, hrest⟩
+        | exact ⟨rfl, rfl, hrest.adel _⟩
+
+theorem mapLoop_congr {ps : List Param} {as bs : List Arg} (ha : ArgsRel L T as bs) :
+    ∀ (l : List Param) {st st' : MapSt}, StRel L T st st' →
+    ORel (StRel L T) (mapLoop ps as st l) (mapLoop ps bs st' l)
+  | [], st, st', hs => by simpa [mapLoop, ORel] using hs
+  | p :: r, st, st', hs => by
+      have h1 := mapStep_congr (ps := ps) p ha hs
+      simp only [mapLoop]
+      cases e1 : mapStep ps as st p with
+      | none =>
+          cases e2 : mapStep ps bs st' p with
+          | none => exact trivial
+          | some s2 => rw [e1, e2] at h1; exact h1.elim
+      | some s1 =>
+          cases e2 : mapStep ps bs st' p with
+          | none => rw [e1, e2] at h1; exact h1.elim
+          | some s2 =>
+              rw [e1, e2] at h1
+              exact mapLoop_congr ha r h1
+
+/-- the final loop of `map_args` over the positional slots -/
+theorem posOk_congr : ∀ (pos : List (Option Param)) {as bs : List Arg}, ArgsRel L T as bs →
+    (∀ p, some p ∈ pos → T p.ty) → posOk L pos as = posOk L pos bs
+  | [], _, _, _, _ => by simp [posOk]
+  | none :: _, _, _, _, _ => by simp [posOk]
+  | some _ :: _, _, _, .nil, _ => rfl
+  | some p :: r, _, _, .cons hab hr, hT => by
+      have hc := hab.core
+      simp only [posOk]
+      rw [← hc.noValue, posOk_congr r hr (fun q hq => hT q (List.mem_cons_of_mem _ hq))]
+      have hp : T p.ty := hT p List.mem_cons_self
+      split
+      · rfl
+      · rw [hc.chk _ hp]
+
+theorem foldl_aset_keys (sp : Param) : ∀ {kw kw' : KwArgs}, KwRel L T kw kw' → ∀ (kwd : List (Name × Param)),
+    kw.foldl (fun acc kv => aset kv.1 sp acc) kwd = kw'.foldl (fun acc kv => aset kv.1 sp acc) kwd
+  | _, _, .nil, _ => rfl
+  | _, _, .cons hx hr, kwd => by
+      simp only [List.foldl_cons]
+      rw [hx.1]
+      exact foldl_aset_keys sp hr _
+
+theorem checkOpt_all_congr (kwd : List (Name × Param)) (hT : ∀ q ∈ kwd, T q.2.ty) :
+    ∀ {kw kw' : KwArgs}, KwRel L T kw kw' →
+    (kw.all fun kv => checkOpt L (alookup kv.1 kwd) kv.2) = (kw'.all fun kv => checkOpt L (alookup kv.1 kwd) kv.2)
+  | _, _, .nil => rfl
+  | _, _, .cons (a := x) (b := y) hx hr => by
+      simp only [List.all_cons]
+      rw [checkOpt_all_congr kwd hT hr, ← hx.1]
+      congr 1
+      cases hl : alookup x.1 kwd with
+      | none => rfl
+      | some p =>
+          obtain ⟨k', hk'⟩ := alookup_mem hl
+          simp only [checkOpt]
+          exact hx.2.core.chk _ (hT _ hk')
+
+theorem filterMap_keys (kwd : List (Name × Param)) : ∀ {kw kw' : KwArgs}, KwRel L T kw kw' →
+    (kw.filterMap fun kv => (alookup kv.1 kwd).map fun p => (kv.1, p)) =
+    (kw'.filterMap fun kv => (alookup kv.1 kwd).map fun p => (kv.1, p))
+  | _, _, .nil => rfl
+  | _, _, .cons hx hr => by
+      simp only [List.filterMap_cons]
+      rw [hx.1, filterMap_keys kwd hr]
+
+/-- `map_args` cannot tell the two calls apart -/
+theorem mapArgs_congr {ps : List Param} {as bs : List Arg} {kw kw' : KwArgs}
+    (ha : ArgsRel L T as bs) (hk : KwRel L T kw kw') (hT : ∀ p ∈ ps, T p.ty) :
+    mapArgs L ps as kw = mapArgs L ps bs kw' := by
+  have hl : as.length = bs.length := ha.length_eq
+  have h0 : StRel L T { pos := List.replicate as.length (starParam ps), kwd := [], rest := kw }
+      { pos := List.replicate bs.length (starParam ps), kwd := [], rest := kw' } := ⟨by rw [hl], rfl, hk⟩
+  have hloop := mapLoop_congr (ps := ps) ha ps h0
+  have hstar : ∀ p, starParam ps = some p → p ∈ ps := fun p hp => List.mem_of_find?_eq_some hp
+  have hss : ∀ p, starStarParam ps = some p → p ∈ ps := fun p hp => List.mem_of_find?_eq_some hp
+  have hinv0 : MapInv ps { pos := List.replicate as.length (starParam ps), kwd := [], rest := kw } :=
+    ⟨fun p hp => hstar p (List.eq_of_mem_replicate hp).symm, fun q hq => by simp at hq⟩
+  unfold mapArgs
+  simp only
+  cases e1 : mapLoop ps as { pos := List.replicate as.length (starParam ps), kwd := [], rest := kw } ps with
+  | none =>
+      cases e2 : mapLoop ps bs { pos := List.replicate bs.length (starParam ps), kwd := [], rest := kw' } ps with
+      | none => rfl
+      | some s2 => rw [e1, e2] at hloop; exact hloop.elim
+  | some s1 =>
+      cases e2 : mapLoop ps bs { pos := List.replicate bs.length (starParam ps), kwd := [], rest := kw' } ps with
+      | none => rw [e1, e2] at hloop; exact hloop.elim
+      | some s2 =>
+          rw [e1, e2] at hloop
+          obtain ⟨hpos, hkwd, hrest⟩ := hloop
+          have hi := mapLoop_inv (fun p hp => hp) hinv0 e1
+          simp only
+          rw [← hpos, ← hkwd, ← hrest.isEmpty]
+          have hfold : ∀ sp : Param, s2.rest.foldl (fun acc kv => aset kv.1 sp acc) s1.kwd =
+              s1.rest.foldl (fun acc kv => aset kv.1 sp acc) s1.kwd := fun sp => (foldl_aset_keys sp hrest _).symm
+          simp only [hfold]
+          cases hkk : (if s1.rest.isEmpty then some s1.kwd
+              else match starStarParam ps with
+                | some sp => some (s1.rest.foldl (fun acc kv => aset kv.1 sp acc) s1.kwd)
+                | none => none) with
+          | none => rfl
+          | some kwd =>
+              simp only
+              have hkT : ∀ q ∈ kwd, T q.2.ty := by
+                intro q hq
+                apply hT
+                split at hkk
+                · cases hkk; exact hi.kwd q hq
+                · cases hsp : starStarParam ps with
+                  | none => simp [hsp] at hkk
+                  | some sp =>
+                      simp only [hsp] at hkk
+                      cases hkk
+                      rcases mem_foldl_aset _ _ q hq with h' | h'
+                      · exact hi.kwd q h'
+                      · rw [h']; exact hss sp hsp
+              rw [posOk_congr s1.pos ha (fun p hp => hT p (hi.pos p hp)), checkOpt_all_congr kwd hkT hrest,
+                filterMap_keys kwd hk]
+
+/-! ## argument evaluation -/
+
+theorem evalPos_congr : ∀ (lz : List Bool) {as bs : List Arg}, ArgsRel L T as bs →
+    ArgsRel L T (evalPos lz as).1 (evalPos lz bs).1 ∧ (evalPos lz as).2 = (evalPos lz bs).2
+  | _, _, _, .nil => ⟨.nil, rfl⟩
+  | lz, _, _, .cons (a := a) (b := b) hab hr => by
+      have ih := evalPos_congr lz.tail hr
+      have hc := hab.core
+      simp only [evalPos]
+      rw [← hc.evaluable]
+      split
+      · exact ⟨.cons hab.evaluated ih.1, by rw [hc.log, ih.2]⟩
+      · exact ⟨.cons hab ih.1, ih.2⟩
+
+theorem evalKw_congr : ∀ (lz : List Bool) {kw kw' : KwArgs}, KwRel L T kw kw' →
+    KwRel L T (evalKw lz kw).1 (evalKw lz kw').1 ∧ (evalKw lz kw).2 = (evalKw lz kw').2
+  | _, _, _, .nil => ⟨.nil, rfl⟩
+  | lz, _, _, .cons (a := x) (b := y) hx hr => by
+      obtain ⟨k1, a⟩ := x
+      obtain ⟨k2, b⟩ := y
+      have hk : k1 = k2 := hx.1
+      subst hk
+      have hab : Sim L T a b := hx.2
+      have ih := evalKw_congr lz.tail hr
+      have hc := hab.core
+      simp only [evalKw]
+      rw [← hc.evaluable]
+      split
+      · exact ⟨.cons ⟨rfl, hab.evaluated⟩ ih.1, by rw [hc.log, ih.2]⟩
+      · exact ⟨.cons ⟨rfl, hab⟩ ih.1, ih.2⟩
+
+/-! ## `get_delegate` -/
+
+theorem getD_congr : ∀ {as bs : List Arg}, ArgsRel L T as bs → ∀ i, Sim L T (as.getD i .noValue) (bs.getD i .noValue)
+  | _, _, .nil, _ => by simpa using Sim.noValue_refl
+  | _, _, .cons hab _, 0 => by simpa using hab
+  | _, _, .cons _ hr, i + 1 => by simpa using getD_congr hr i
+
+theorem all_check_congr {t : PTy} (ht : T t) : ∀ {as bs : List Arg}, ArgsRel L T as bs →
+    as.all (check L t) = bs.all (check L t)
+  | _, _, .nil => rfl
+  | _, _, .cons hab hr => by simp only [List.all_cons, hab.core.chk t ht, all_check_congr ht hr]
+
+theorem all_check_kw_congr {t : PTy} (ht : T t) : ∀ {kw kw' : KwArgs}, KwRel L T kw kw' →
+    (kw.all fun kv => check L t kv.2) = (kw'.all fun kv => check L t kv.2)
+  | _, _, .nil => rfl
+  | _, _, .cons hx hr => by simp only [List.all_cons, hx.2.core.chk t ht, all_check_kw_congr ht hr]
+
+/-- the part of the `get_delegate` loop state that decides whether it succeeds -/
+structure DRel (L : Lattice) (T : PTy → Prop) (st st' : DelSt) : Prop where
+  rest : KwRel L T st.rest st'.rest
+  vis : st.vis = st'.vis
+
+theorem checked_isSome {p : Param} (hp : T p.ty) {a b : Arg} (hab : Sim L T a b) :
+    (checked L p a).isSome = (checked L p b).isSome := by
+  simp only [checked, hab.core.chk _ hp]
+  split <;> rfl
+
+theorem ORel_map_checked {p : Param} (hp : T p.ty) {a b : Arg} (hab : Sim L T a b)
+    {f g : Slot → DelSt} (hfg : ∀ s s', DRel L T (f s) (g s')) :
+    ORel (DRel L T) ((checked L p a).map f) ((checked L p b).map g) := by
+  simp only [checked, hab.core.chk _ hp]
+  split
+  · exact hfg _ _
+  · exact trivial
+
+theorem delegStep_congr {ps : List Param} {as bs : List Arg} {st st' : DelSt} (p : Param) (hp : T p.ty)
+    (ha : ArgsRel L T as bs) (hs : DRel L T st st') :
+    ORel (DRel L T) (delegStep L ps as st p) (delegStep L ps bs st' p) := by
+  have hg := given_congr ha
+  have hh := hs.rest.ahas
+  obtain ⟨hrest, hvis⟩ := hs
+  have hself : ∀ d : Arg, Sim L T d d := sim_refl
+  unfold delegStep
+  cases hq : p.position with
+  | some q =>
+      simp only
+      by_cases h1 : p.isStar = true
+      · simp only [h1, if_true]; exact ⟨hrest, hvis⟩
+      · simp only [h1]
+        by_cases h2 : p.hidden = true
+        · simp only [h2, if_true]; exact ⟨hrest, by simp [hvis]⟩
+        · simp only [h2]
+          rw [← hg]
+          by_cases h3 : given as (q - fixAt ps q) = true
+          · simp only [h3, if_true]
+            rw [← hh]
+            by_cases h4 : ahas p.argName st.rest = true
+            · simp only [h4, if_true]; exact trivial
+            · simp only [h4]
+              exact ORel_map_checked hp (getD_congr ha _) (fun _ _ => ⟨hrest, hvis⟩)
+          · simp only [h3]
+            rcases hrest.alookup p.argName with ⟨e1, e2⟩ | ⟨a, b, e1, e2, hab⟩
+            · rw [e1, e2]
+              simp only
+              cases p.default with
+              | none => exact trivial
+              | some d => exact ORel_map_checked hp (hself d) (fun _ _ => ⟨hrest, hvis⟩)
+            · rw [e1, e2]
+              simp only
+              exact ORel_map_checked hp hab (fun _ _ => ⟨hrest.adel _, hvis⟩)
+  | none =>
+      simp only
+      by_cases h1 : p.isStarStar = true
+      · simp only [h1, if_true]; exact ⟨hrest, hvis⟩
+      · simp only [h1]
+        by_cases h2 : p.hidden = true
+        · simp only [h2, if_true]; exact ⟨hrest, hvis⟩
+        · simp only [h2]
+          rcases hrest.alookup p.argName with ⟨e1, e2⟩ | ⟨a, b, e1, e2, hab⟩
+          · rw [e1, e2]
+            simp only
+            cases p.default with
+            | none => exact trivial
+            | some d => exact ORel_map_checked hp (hself d) (fun _ _ => ⟨hrest, hvis⟩)
+          · rw [e1, e2]
+            simp only
+            exact ORel_map_checked hp hab (fun _ _ => ⟨hrest.adel _, hvis⟩)
+
+theorem delegLoop_congr {ps : List Param} {as bs : List Arg} (ha : ArgsRel L T as bs) :
+    ∀ (l : List Param), (∀ p ∈ l, T p.ty) → ∀ {st st' : DelSt}, DRel L T st st' →
+    ORel (DRel L T) (delegLoop L ps as st l) (delegLoop L ps bs st' l)
+  | [], _, st, st', hs => by simpa [delegLoop, ORel] using hs
+  | p :: r, hT, st, st', hs => by
+      have h1 := delegStep_congr (ps := ps) p (hT p List.mem_cons_self) ha hs
+      simp only [delegLoop]
+      cases e1 : delegStep L ps as st p with
+      | none =>
+          cases e2 : delegStep L ps bs st' p with
+          | none => exact trivial
+          | some s2 => rw [e1, e2] at h1; exact h1.elim
+      | some s1 =>
+          cases e2 : delegStep L ps bs st' p with
+          | none => rw [e1, e2] at h1; exact h1.elim
+          | some s2 =>
+              rw [e1, e2] at h1
+              exact delegLoop_congr ha r (fun q hq => hT q (List.mem_cons_of_mem _ hq)) h1
+
+theorem isSome_ite_congr {α : Type} (c : Prop) [Decidable c] (x y : α) :
+    (if c then some x else none).isSome = (if c then some y else none).isSome := by
+  split <;> rfl
+
+/-- `get_delegate` accepts the one call iff it accepts the other -/
+theorem getDelegate_isSome_congr {ps : List Param} {as bs : List Arg} {kw kw' : KwArgs}
+    (ha : ArgsRel L T as bs) (hk : KwRel L T kw kw') (hT : ∀ p ∈ ps, T p.ty) :
+    (getDelegate L ps as kw).isSome = (getDelegate L ps bs kw').isSome := by
+  have hl : as.length = bs.length := ha.length_eq
+  have hstar : ∀ p, starParam ps = some p → T p.ty := fun p hp => hT p (List.mem_of_find?_eq_some hp)
+  have hss : ∀ p, starStarParam ps = some p → T p.ty := fun p hp => hT p (List.mem_of_find?_eq_some hp)
+  have h0 : DRel L T { pos := List.replicate (positionalCount ps) none, kw := [], rest := kw, vis := positionalCount ps }
+      { pos := List.replicate (positionalCount ps) none, kw := [], rest := kw', vis := positionalCount ps } := ⟨hk, rfl⟩
+  have hloop := delegLoop_congr (ps := ps) ha ps hT h0
+  unfold getDelegate
+  simp only
+  cases e1 : delegLoop L ps as
+      { pos := List.replicate (positionalCount ps) none, kw := [], rest := kw, vis := positionalCount ps } ps with
+  | none =>
+      cases e2 : delegLoop L ps bs
+          { pos := List.replicate (positionalCount ps) none, kw := [], rest := kw', vis := positionalCount ps } ps with
+      | none => rfl
+      | some s2 => rw [e1, e2] at hloop; exact hloop.elim
+  | some s1 =>
+      cases e2 : delegLoop L ps bs
+          { pos := List.replicate (positionalCount ps) none, kw := [], rest := kw', vis := positionalCount ps } ps with
+      | none => rw [e1, e2] at hloop; exact hloop.elim
+      | some s2 =>
+          rw [e1, e2] at hloop
+          obtain ⟨hrest, hvis⟩ := hloop
+          simp only
+          rw [← hl, ← hvis, ← hrest.isEmpty]
+          by_cases hgt : as.length > s1.vis
+          · simp only [hgt, if_true]
+            cases hsp : starParam ps with
+            | none => rfl
+            | some sp =>
+                simp only
+                rw [← all_check_congr (hstar sp hsp) (forall₂_drop s1.vis ha)]
+                by_cases hall : ((as.drop s1.vis).all (check L sp.ty)) = true
+                · simp only [hall, if_true]
+                  by_cases hem : s1.rest.isEmpty = true
+                  · simp only [hem, if_true, Option.isSome_some]
+                  · simp only [hem]
+                    cases hssp : starStarParam ps with
+                    | none => rfl
+                    | some sp2 =>
+                        simp only
+                        rw [← all_check_kw_congr (hss sp2 hssp) hrest]
+                        exact isSome_ite_congr _ _ _
+                · simp only [hall]; rfl
+          · simp only [hgt, if_false]
+            by_cases hem : s1.rest.isEmpty = true
+            · simp only [hem, if_true, Option.isSome_some]
+            · simp only [hem]
+              cases hssp : starStarParam ps with
+              | none => rfl
+              | some sp2 =>
+                  simp only
+                  rw [← all_check_kw_congr (hss sp2 hssp) hrest]
+                  exact isSome_ite_congr _ _ _
+
+/-! ## the choice looks at the candidates only -/
+
+theorem matchesOf_cands (L : Lattice) (as : List Arg) (kw : KwArgs) : ∀ (cs : List Cand),
+    (matchesOf L as kw cs).map (·.cand) = cs.filter fun c => (getDelegate L c.fd.params as kw).isSome
+  | [] => rfl
+  | c :: r => by
+      have ih := matchesOf_cands L as kw r
+      simp only [matchesOf] at ih ⊢
+      simp only [List.filterMap_cons, List.filter_cons]
+      cases h : getDelegate L c.fd.params as kw with
+      | none => simpa using ih
+      | some b => simpa using ih
+
+/-- the chosen overload as a function of the type-compatible candidates, level by level -/
+def bestC (L : Lattice) (cs : List Cand) : List Cand :=
+  cs.filter fun m => cs.all fun o => o.fd.id == m.fd.id || moreSpecific L m.mapping o.mapping
+
+def chooseC (L : Lattice) (cs : List Cand) : Except Err Nat :=
+  match bestC L cs with
+  | [w] => .ok w.fd.id
+  | _ => .error .ambiguous
+
+def decideC (L : Lattice) (cls : List (List Cand)) : Except Err Nat :=
+  match cls.find? (fun cs => !cs.isEmpty) with
+  | none => .error .noMatching
+  | some cs => chooseC L cs
+
+theorem best_cands (L : Lattice) (ms : List Match) : (best L ms).map (·.cand) = bestC L (ms.map (·.cand)) := by
+  unfold best bestC
+  rw [List.filter_map]
+  congr 1
+  apply List.filter_congr
+  intro m _
+  simp only [List.all_map, Function.comp_def]
+
+theorem choose_cands (L : Lattice) (ms : List Match) :
+    (C05.choose L ms).map Prod.fst = chooseC L (ms.map (·.cand)) := by
+  unfold C05.choose chooseC
+  rw [← best_cands]
+  cases h : best L ms with
+  | nil => rfl
+  | cons w r =>
+      cases r with
+      | nil => rfl
+      | cons _ _ => rfl
+
+theorem decide_cands (L : Lattice) : ∀ (mls : List (List Match)),
+    (decide' L mls).map Prod.fst = decideC L (mls.map fun ms => ms.map (·.cand))
+  | [] => rfl
+  | ms :: r => by
+      have ih := decide_cands L r
+      unfold decide' decideC at ih ⊢
+      simp only [List.map_cons, List.find?_cons]
+      cases ms with
+      | nil => simpa using ih
+      | cons m ms' => simpa using choose_cands L (m :: ms')
+
+/-! ## the theorem -/
+
+/-- what the two outcomes share: the arguments evaluated, and the overload chosen / the error class -/
+def _root_.Yaql.Resolve.Outcome.choice (o : Outcome) : List Nat × Except Err Nat := (o.log, o.res.map Prod.fst)
+
+def CallRel (L : Lattice) (T : PTy → Prop) (c c' : Call) : Prop :=
+  ArgsRel L T (callArgs c) (callArgs c') ∧ KwRel L T c.kwargs c'.kwargs ∧ c.receiver.isSome = c'.receiver.isSome
+
+def candsOf (mls : List (List Match)) : List (List Cand) := mls.map fun ms => ms.map (·.cand)
+
+theorem stage_congr {vis : List (List FDef)} {c c' : Call} (h : CallRel L T c c')
+    (hT : ∀ lv ∈ vis, ∀ fd ∈ lv, ∀ p ∈ fd.params, T p.ty) :
+    (∃ e, stage L vis c = .error e ∧ stage L vis c' = .error e) ∨
+    (∃ lg mls mls', stage L vis c = .ok (lg, mls) ∧ stage L vis c' = .ok (lg, mls') ∧ candsOf mls = candsOf mls') := by
+  obtain ⟨ha, hk, _⟩ := h
+  unfold stage
+  simp only
+  by_cases hflag : (vis.flatten.any (·.noKwargs) && vis.flatten.any (!·.noKwargs)) = true
+  · left; exact ⟨.ambiguous, by rw [if_pos hflag], by rw [if_pos hflag]⟩
+  · rw [if_neg hflag, if_neg hflag]
+    rcases translateArgs_congr ((vis.flatten.map (·.noKwargs)).headD false) ha hk with
+      ⟨e, h1, h2⟩ | ⟨p, k, p', k', h1, h2, hp, hkk⟩
+    · left; exact ⟨e, by rw [h1], by rw [h2]⟩
+    · rw [h1, h2]
+      simp only
+      have hmapped : vis.map (mappedOf L p k) = vis.map (mappedOf L p' k') := by
+        apply List.map_congr_left
+        intro lv hlv
+        unfold mappedOf
+        apply List.filterMap_congr
+        intro fd hfd
+        rw [mapArgs_congr hp hkk (hT lv hlv fd hfd)]
+      rw [← hmapped]
+      cases hflat : (vis.map (mappedOf L p k)).flatten with
+      | nil => left; exact ⟨.noMatching, rfl, rfl⟩
+      | cons m0 rest =>
+          simp only
+          by_cases hsig : (!rest.all fun m => decide (m.sig = m0.sig)) = true
+          · left; exact ⟨.ambiguous, by rw [if_pos hsig], by rw [if_pos hsig]⟩
+          · right
+            have hev := evalPos_congr m0.sig.pos hp
+            have hek := evalKw_congr m0.sig.kw hkk
+            refine ⟨_, _, _, by rw [if_neg hsig], by rw [if_neg hsig, ← hev.2, ← hek.2], ?_⟩
+            simp only [candsOf, List.map_map]
+            apply List.map_congr_left
+            intro lv hlv
+            simp only [Function.comp]
+            rw [matchesOf_cands, matchesOf_cands]
+            apply List.filter_congr
+            intro cd hcd
+            have hfd := (mem_mappedOf hcd).1
+            exact getDelegate_isSome_congr hev.1 hek.1 (hT lv hlv cd.fd hfd)
+
+theorem chooseSpec_congr {vis : List (List FDef)} {c c' : Call} (h : CallRel L T c c')
+    (hT : ∀ lv ∈ vis, ∀ fd ∈ lv, ∀ p ∈ fd.params, T p.ty) :
+    (chooseSpec L vis c).choice = (chooseSpec L vis c').choice := by
+  unfold chooseSpec
+  rcases stage_congr h hT with ⟨e, h1, h2⟩ | ⟨lg, mls, mls', h1, h2, hc⟩
+  · rw [h1, h2]
+  · rw [h1, h2]
+    simp only [Outcome.choice, decide_cands]
+    unfold candsOf at hc
+    rw [hc]
+
+/-- **resolution sees of the arguments only what the candidates' parameter types observe**: for every
+    class graph, layer chain and pair of calls that look alike to every parameter type registered in
+    the layers -/
+theorem resolve_congr (L : Lattice) (T : PTy → Prop) (layers : List Layer) {c c' : Call}
+    (h : CallRel L T c c') (hT : ∀ l ∈ layers, ∀ fd ∈ l.fns, ∀ p ∈ fd.params, T p.ty) :
+    (resolve L layers c).choice = (resolve L layers c').choice := by
+  rw [resolve_eq_spec, resolve_eq_spec]
+  unfold resolveSpec
+  simp only [← h.2.2]
+  split
+  · rfl
+  · apply chooseSpec_congr h
+    intro lv hlv fd hfd
+    obtain ⟨l, hl, hfl, _⟩ := visible_mem hlv hfd
+    exact hT l (reach_sub _ l hl) fd hfl
 
 end Yaql.Props.C04Dispatch
